@@ -551,6 +551,17 @@ func (e *SEnv) ident(name string) Val {
 	}
 	// local variable of the function
 	if e.fr != nil && e.fr.fn == e.fn && !e.inSpecFunc {
+		// a local kept in memory: its address is a local matter, its content is
+		// read in the state being inspected (old()/at() rewind the heap)
+		if e.locSt != nil {
+			if p, ok := e.fr.lookupLocalAddr(e.localState(), name, e.block); ok {
+				if rv, isReg := e.fr.lookupLocal(e.localState(), name, e.block); isReg && p.S != nil {
+					_ = rv
+				}
+				pt := types.Unalias(p.T).Underlying().(*types.Pointer)
+				return e.load(e.cur, p.S[0], p.S[1], pt.Elem())
+			}
+		}
 		if v, ok := e.fr.lookupLocal(e.localState(), name, e.block); ok {
 			return v
 		}
@@ -740,6 +751,14 @@ func (e *SEnv) addr(x SExpr) Val {
 			}
 		}
 		_ = fv
+	case *SIdent:
+		// address of a local variable that lives in memory
+		if e.fr != nil && e.fr.fn == e.fn && !e.inSpecFunc {
+			if v, ok := e.fr.lookupLocalAddr(e.localState(), x.Name, e.block); ok {
+				return v
+			}
+		}
+		e.fail("&%s: not an addressable local variable", x.Name)
 	case *SIndex:
 		base := e.eval(x.X)
 		if sl, ok := types.Unalias(base.T).Underlying().(*types.Slice); ok {
@@ -879,6 +898,20 @@ func (e *SEnv) call(x *SCall) Val {
 			ak := "g.all." + lab
 			vc.ensureKey(ak, "Bool")
 			return boolVal(vc.get(e.cur, ak))
+		case "before":
+			// before(Label, e): e evaluated in the state right before the most
+			// recent call counted under Label
+			lab := x.Args[0].(*SIdent).Name
+			snap, ok := vc.beforeState[lab]
+			if !ok {
+				e.fail("before(%s, ...): no counted call seen", lab)
+			}
+			n := e.sub()
+			if n.locSt == nil {
+				n.locSt = e.cur
+			}
+			n.cur = snap
+			return n.eval(x.Args[1])
 		case "at":
 			// at(Label, e): e evaluated in the state right after the most recent
 			// call counted under Label (the call must dominate this point)
